@@ -849,6 +849,12 @@ func crafted(cl *cluster.Cluster, bld *builder, duty core.Duty, n int, slot uint
 		mk("window/far-future-duty", k0, func(q *pbv1.QBFTMsg) { q.Duty = core.DutyToProto(core.NewAttesterDuty(slot + 4*perEpoch)) }),
 		mk("window/first-slot-of-epoch-beyond-window", k0, func(q *pbv1.QBFTMsg) { q.Duty = core.DutyToProto(core.NewAttesterDuty((nowSlot/perEpoch + 3) * perEpoch)) }),
 		mk("control/last-slot-inside-window", k0, func(q *pbv1.QBFTMsg) { q.Duty = core.DutyToProto(core.NewAttesterDuty((nowSlot/perEpoch+3)*perEpoch - 1)) }),
+		mk("window/duty-slot-max-uint64", k0, func(q *pbv1.QBFTMsg) { q.Duty = core.DutyToProto(core.NewAttesterDuty(^uint64(0))) }),
+		mk("window/duty-slot-2^63", k0, func(q *pbv1.QBFTMsg) { q.Duty = core.DutyToProto(core.NewAttesterDuty(1 << 63)) }),
+		mk("window/duty-slot-start-overflows-int64-ns", k0, func(q *pbv1.QBFTMsg) {
+			q.Duty = core.DutyToProto(core.NewAttesterDuty(uint64(int64(^uint64(0)>>1)/int64(cl.Cfg.SlotDuration)) + 1 + slot%64))
+		}),
+		mkDecided("window/decided-duty-slot-2^63", core.NewAttesterDuty(1<<63)),
 		mk("window/expired-duty", k0, func(q *pbv1.QBFTMsg) { q.Duty = core.DutyToProto(core.NewAttesterDuty(slot - 3*perEpoch)) }),
 		mk("duty/invalid-duty-type", k0, func(q *pbv1.QBFTMsg) { q.Duty = &pbv1.Duty{Slot: slot, Type: 99} }),
 		mk("duty/unknown-duty-type-zero", k0, func(q *pbv1.QBFTMsg) { q.Duty = &pbv1.Duty{Slot: slot, Type: 0} }),
